@@ -16,7 +16,7 @@ Open Scope Z_scope.
 Ltac Zify.zify_post_hook ::= Z.to_euclidean_division_equations.
 
 (** * the date writer on any date word whose accessors read (y, m, dd) — C09's [date_debug_text]
-      with the representation hypothesis replaced by what its proof uses *)
+      with the premise on the representation replaced by what its proof uses *)
 Lemma date_debug_fields w d y m dd :
   Date.d_year d = y -> Date.d_month d = Val m -> Date.d_day d = Val dd ->
   in_i32 y = true -> 0 <= m < 100 -> 0 <= dd < 100 ->
